@@ -113,23 +113,29 @@ Definition xp_string (v : value) : str :=
     The result [(neg, D, k)] stands for (-1)^neg * D * 10^k. *)
 Definition all_ws (s : str) : bool := forallb is_ws s.
 
+(** [(true, rest)] when the string starts with [c] *)
+Definition strip_char (c : char) (s : str) : bool * str :=
+  match s with
+  | x :: t => if x =? c then (true, t) else (false, s)
+  | [] => (false, s)
+  end.
+
+Definition nonempty (s : str) : bool := match s with [] => false | _ => true end.
+
 Definition xp_parse_number (s : str) : option (bool * Z * Z) :=
   let s1 := drop_while is_ws s in
-  let '(neg, s2) := match s1 with 45 :: t => (true, t) | _ => (false, s1) end in
+  let '(neg, s2) := strip_char 45 s1 in           (* '-' *)
   let '(ip, s3) := span is_digit s2 in
-  match ip, s3 with
-  | _ :: _, 46 :: s4 =>
-      let '(fp, s5) := span is_digit s4 in
-      if all_ws s5 then Some (neg, digits_val (ip ++ fp), (- Z.of_nat (List.length fp))%Z) else None
-  | _ :: _, _ => if all_ws s3 then Some (neg, digits_val ip, 0%Z) else None
-  | [], 46 :: s4 =>
-      let '(fp, s5) := span is_digit s4 in
-      match fp with
-      | [] => None
-      | _ => if all_ws s5 then Some (neg, digits_val fp, (- Z.of_nat (List.length fp))%Z) else None
-      end
-  | [], _ => None
-  end.
+  let '(dot, s4) := strip_char 46 s3 in           (* '.' *)
+  if dot then
+    (* Digits '.' Digits?  |  '.' Digits *)
+    let '(fp, s5) := span is_digit s4 in
+    if all_ws s5 && (nonempty ip || nonempty fp)
+    then Some (neg, digits_val (ip ++ fp), (- Z.of_nat (List.length fp))%Z)
+    else None
+  else
+    (* Digits *)
+    if all_ws s3 && nonempty ip then Some (neg, digits_val ip, 0%Z) else None.
 
 Definition xp_string_to_number (s : str) : f64 :=
   match xp_parse_number s with
@@ -284,14 +290,11 @@ Definition spec_neg (a : value) : fres :=
 (** 3.7 a Number token of an expression ([Digits ('.' Digits?)? | '.' Digits], no sign, no white
     space) denotes the nearest double *)
 Definition spec_literal (s : str) : fres :=
-  match s with
-  | 45 :: _ => RErr EInvalidType
-  | _ => if existsb is_ws s then RErr EInvalidType
-         else match xp_parse_number s with
-              | Some (neg, D, k) => ROk (VNum (f64_of_decimal neg D k))
-              | None => RErr EInvalidType
-              end
-  end.
+  if fst (strip_char 45 s) || existsb is_ws s then RErr EInvalidType
+  else match xp_parse_number s with
+       | Some (neg, D, k) => ROk (VNum (f64_of_decimal neg D k))
+       | None => RErr EInvalidType
+       end.
 
 (** ** the function library: names, arities (section 4), dispatch *)
 Inductive fname :=
